@@ -57,6 +57,8 @@ type VC struct {
 	oblCount      map[string]int
 	callCovers    int
 	callAssertHit map[*CallAssert]bool
+	casNames      map[string]bool
+	casPre        map[string]bool // registered before encoding started (entry value known false)
 	assumed       map[string]bool
 	warnings      []string
 	top           *Frame
